@@ -64,6 +64,7 @@ type Cfg struct {
 	NoHooks  bool   `json:"passive_hooks,omitempty"`
 	WdRel    string `json:"working_directory,omitempty"`  // working directory below the case root (default "wd"), e.g. one with blanks in its name
 	SlowErr  bool   `json:"slow_stderr_reader,omitempty"` // the subject's stderr is a pipe whose reader takes 128 kB every 10 ms
+	NoFile   int    `json:"open_files_limit,omitempty"`   // the subject runs under "ulimit -n <limit>"
 	Debug    bool   `json:"debug_log,omitempty"`          // the library logs at its DEBUG level (InitLogDebug before the workflow is made)
 	Quiet    bool   `json:"quiet_log,omitempty"`          // the library logs errors only (its logger's mutex is one more synchronisation the race detector sees)
 }
@@ -115,6 +116,9 @@ func execSpec(c *chk.Ctx, root string, s *spec.Spec, cfg Cfg, behav vproto.Behav
 		soft = time.Duration(cfg.SoftSec) * time.Second
 	}
 	cs := &run.Case{Root: root, Bin: bin, Spec: sp, Env: env, Behav: behav, KeepWd: keepWd, RunNo: runNo, Soft: soft, Hard: hard, SlowStderr: cfg.SlowErr, WdRel: cfg.WdRel}
+	if cfg.NoFile > 0 {
+		cs.Wrap = []string{"/bin/bash", "-c", fmt.Sprintf("ulimit -n %d; exec \"$@\"", cfg.NoFile), "wrap"}
+	}
 	c.Eval(1)
 	res := cs.Run()
 	if res.Signal == "killed" && res.Hang == "" && cfg.Crash == "" && !behavKillsGroup(behav) {
